@@ -10,7 +10,8 @@
 From Coq Require Import List ZArith Bool String.
 From SV Require Import Producer.Msg Producer.Actors Producer.Compose
                        C05.Model C05.Witness C05.ProofsBroker C05.ProofsSys C05.ProofsClient C05.ProofsLink C05.ProofsWitness
-                       Gen.GoInt Gen.DecTypes Gen.DecTypes2 Gen.DecC01 Gen.DecC05 C05.TieGen.
+                       Gen.GoInt Gen.DecTypes Gen.DecTypes2 Gen.DecC01 Gen.DecC05 C05.TieGen
+                       C05.ProofsClosure C05.ProofsEnv C05.ProofsTab C05.ProofsLineage C05.ProofsKey C05.ProofsEnvFinal C05.ProofsCount.
 Import ListNotations.
 Open Scope Z_scope.
 
@@ -151,6 +152,56 @@ Theorem c05_resend_identical_partial : forall c ep k ms e l b s,
                              batch_of w (s_epoch s) (k, ms') = batch_of w ep0 (k, ms)).
 Proof. exact resend_identical. Qed.
 Print Assumptions c05_resend_identical_partial.
+
+(* ------------------------------------------------------------------ the environment class *)
+
+(* [env_ok c sched]: at every step of the run (a) if the producer epoch moves, no sequenced message is left anywhere
+   afterwards ("no epoch bump while another sequenced message is unresolved": [no_stamped] ranges over every channel
+   queue, retry-level buffer, broker buffer, parked message, bridged / in-flight / answered set and retryBatch task);
+   (b) the set a delivery hands to the cluster lists, per partition, messages with consecutive sequence numbers
+   (the per-partition ordering statement of C02, decidable on the run; automatic when every batch has one message).
+   Connection-level failures, lost acknowledgements, leader moves, exhausted budgets, fatal answers, any number of
+   partitions and any flush setting are inside the class. *)
+
+(* in the class (clause (a) alone), whatever a broker worker has in flight: every application message of it is
+   sequenced, carries the set's label, and that label is the current epoch -- the mechanism of defect (ii) is excluded *)
+Theorem c05_epoch_coherent_env : forall c sched, c_idem c = true -> bump_quiet c yinit sched ->
+  forall b x st m, nth_error (g_bps (y_st (yrun c sched))) b = Some x -> i_infl x = Some st ->
+  In m (set_msgs st) -> is_data m = true ->
+  m_hasseq m = true /\ m_epoch m = s_epoch st /\ s_epoch st = g_epoch (y_st (yrun c sched)).
+Proof. exact epoch_coherent. Qed.
+Print Assumptions c05_epoch_coherent_env.
+
+(* for every schedule at all: each set a broker worker holds files every message under its own (topic, partition) *)
+Theorem c05_partition_keys : forall c ys, key_inv (y_st (yrun c ys)).
+Proof. exact key_run. Qed.
+Print Assumptions c05_partition_keys.
+
+(* in the class the received history is stamp-consistent: every message keeps the (partition, epoch, sequence) it was
+   stamped with wherever it travels and however often it is re-sent, and no two messages ever share one *)
+Theorem c05_stamp_consistent_env : forall c sched, c_idem c = true -> c_fix_rb c = true -> env_ok c sched ->
+  (forall i, (subm_count i (y_st (yrun c sched)) <= 1)%nat) -> consistent (hist_claims (y_hist (yrun c sched))).
+Proof. exact env_consistent. Qed.
+Print Assumptions c05_stamp_consistent_env.
+
+(* hence, in the class: no message is in the logs twice, every message reported successful is there exactly once *)
+Theorem c05_no_duplicate_env_partial : forall c sched,
+  idem_cfg c = true -> c_fix_rb c = true -> forallb sane_choice sched = true -> env_ok c sched ->
+  (forall i, (subm_count i (y_st (yrun c sched)) <= 1)%nat) ->
+  (forall i, (appended i (yrun c sched) <= 1)%nat) /\
+  (forall i, In i (success_ids (y_st (yrun c sched))) -> appended i (yrun c sched) = 1%nat).
+Proof. exact no_duplicate_env. Qed.
+Print Assumptions c05_no_duplicate_env_partial.
+
+(* purely environmental: with Producer.Flush.MaxMessages = 1 (every batch one message) the ordering clause holds by
+   itself ([bump_ok]: clause (a) only), whatever the schedule, the faults, the partitions *)
+Theorem c05_no_duplicate_env_single : forall c sched,
+  idem_cfg c = true -> c_fix_rb c = true -> c_max_msgs c = 1 -> forallb sane_choice sched = true -> bump_ok c sched ->
+  (forall i, (subm_count i (y_st (yrun c sched)) <= 1)%nat) ->
+  (forall i, (appended i (yrun c sched) <= 1)%nat) /\
+  (forall i, In i (success_ids (y_st (yrun c sched))) -> appended i (yrun c sched) = 1%nat).
+Proof. exact no_duplicate_env_single. Qed.
+Print Assumptions c05_no_duplicate_env_single.
 
 (* ------------------------------------------------------------------ tie to the regenerated source (decgen) *)
 
